@@ -57,7 +57,7 @@ def run(ctx):
         return
     d = os.path.join(ctx.rundir, "corr")
     os.makedirs(d, exist_ok=True)
-    args = [os.path.join(C.BIN, "c12"), "corr", "-out", d, "-n", str(ctx.scale(1500, 30000)), "-nbig", str(ctx.scale(200, 3000)), "-naug", str(ctx.scale(500, 10000)), "-corpus", CORPUS]
+    args = [os.path.join(C.BIN, "c12"), "corr", "-out", d, "-n", str(ctx.scale(4000, 30000)), "-nbig", str(ctx.scale(500, 3000)), "-naug", str(ctx.scale(1500, 10000)), "-corpus", CORPUS]
     rc, out = C.sh(args, timeout=3000)
     ctx.log("corr", out[-1500:])
     drv = os.path.join(C.BUILD, "ocaml", "c12", "driver")
@@ -73,8 +73,11 @@ def run(ctx):
             pass
     else:
         ctx.diag.append("correspondence could not run: " + out[-300:])
-    summ = oracle(ctx, ctx.scale(3000, 40000))
+    summ = oracle(ctx, ctx.scale(9000, 40000))
     ctx.add_summary(summ, "FlattenBatches oracle")
+    if summ and "input_file_no_longer_valid_after_flatten" in summ:
+        # outside the statement of C12 (see docs/C12.md, "Observation")
+        ctx.cov["observation_input_file_no_longer_valid_after_flatten"] = summ["input_file_no_longer_valid_after_flatten"]
     if ctx.tier == "thorough":
         ctx.cov["forbidden_vernacular"] = C.forbidden_vernacular()
 
